@@ -482,6 +482,25 @@ class RunMonitor:
             e0 = exp.pop(0)
             self.ctx.check(self.ctx.eq(time, e0), "C20:provider-invoked-for-other-time", {"sig": "provider"})
             self.ctx.cover("provider-asked")
+        owner = self.owned.get(id(out))
+        if isinstance(owner, HPull):
+            self._cb_before = (id(out), len(owner.requests))
+
+    def after_cb_get_data(self, spy, out, a, k, r, e):
+        """the provider itself (the component's callback, not only the output slot) ran for exactly this request"""
+        if self.in_update is None or "C20" not in self.props or e is not None:
+            return
+        owner = self.owned.get(id(out))
+        mark = getattr(self, "_cb_before", None)
+        if not isinstance(owner, HPull) or mark is None or mark[0] != id(out):
+            return
+        time = a[0] if a else k.get("time")
+        ran = len(owner.requests) == mark[1] + 1
+        if not ran:
+            self.ctx.fail("C20:provider-not-invoked-for-the-request", {"sig": "provider-skipped", "out": owner.name})
+        else:
+            self.ctx.check(self.ctx.eq(owner.requests[-1][1], time), "C20:provider-invoked-for-other-time",
+                           {"sig": "provider"})
 
     def after_finalize(self, spy, ada, a, k, r, e):
         self.finalized[id(ada)] = self.finalized.get(id(ada), 0) + 1
@@ -520,7 +539,7 @@ def h_run(ctx):
                  after=mon.after_update_recursive)
         spy.wrap(fm.Component, "update", before=mon.before_comp_update)
         spy.wrap(Output, "get_data", before=mon.before_get_data)
-        spy.wrap(CallbackOutput, "get_data", before=mon.before_cb_get_data)
+        spy.wrap(CallbackOutput, "get_data", before=mon.before_cb_get_data, after=mon.after_cb_get_data)
         spy.wrap(Adapter, "finalize", after=mon.after_finalize)
         try:
             if p.get("vary_connect") and ctx.flag("explicit_connect"):
